@@ -33,8 +33,8 @@ def tree_of(c):
 
 def execute(spec):
     import sys
-    if "/repo" not in sys.path:
-        sys.path.insert(0, "/repo")
+    if __import__("harness").REPO not in sys.path:
+        sys.path.insert(0, __import__("harness").REPO)
     from asyncfix import FIXMessage, FMsg, FTag
     from asyncfix.fix_tester import FIXTester
     from asyncfix.protocol.order_single import FIXNewOrderSingle
@@ -141,8 +141,8 @@ def execute(spec):
 
 def session_factories(_):
     import sys
-    if "/repo" not in sys.path:
-        sys.path.insert(0, "/repo")
+    if __import__("harness").REPO not in sys.path:
+        sys.path.insert(0, __import__("harness").REPO)
     from asyncfix.fix_tester import FIXTester
     ft = FIXTester(schema=None)
     steps = []
@@ -264,7 +264,7 @@ def script_pair(spec):
 def run(ctx):
     out = Outcome()
     q = ctx.quick
-    d = fixdict.translate("/repo/tests/FIX44.xml")
+    d = fixdict.translate(__import__("harness").REPO + "/tests/FIX44.xml")
     df = os.path.join(ctx.sub("dict"), "FIX44.json")
     with open(df, "w") as fh:
         json.dump(d, fh)
@@ -318,7 +318,7 @@ def run(ctx):
 
 def replay(ctx, inp):
     out = Outcome()
-    d = fixdict.translate("/repo/tests/FIX44.xml")
+    d = fixdict.translate(__import__("harness").REPO + "/tests/FIX44.xml")
     df = os.path.join(ctx.sub("dict"), "FIX44.json")
     with open(df, "w") as fh:
         json.dump(d, fh)
